@@ -427,13 +427,14 @@ PROPS = {
                        "(negative) and last-element (0); reset() (and same-file callees) assigns every field advance() changes; a clone() that copies fields itself copies every field "
                        "value()/advance() read. STRSCAN: loop conditions that read the character under an advancing char pointer are false at NUL (abstract evaluation of the "
                        "condition with *p = 0). OUTPARAM: at every read of a local result parameter the callee's result, restricted to states where the result variable still "
-                       "holds it (trace partition), excludes the callee's unwritten return class (call-site specialised summaries). ERRPROP on mpt_iterator_consume. CONTAINEROF: a pointer to an embedded interface is turned into the embedding record only by going back the offset of a member of that type (MPT_baseaddr with the right member; never `ptr + n`). ITERPROTO also demands that every way to `return 0` in advance() passes a store into the iterator object (the end of the sequence is recorded).",
+                       "holds it (trace partition), excludes the callee's unwritten return class (call-site specialised summaries). ERRPROP on mpt_iterator_consume. FIELDNULL: a pointer member that one method of an object sets to null and at least two methods test for null (the exhausted marker) is not dereferenced or used in pointer arithmetic by a method that has not excluded null on the way (test, or a non-null store that dominates the use). CONTAINEROF: a pointer to an embedded interface is turned into the embedding record only by going back the offset of a member of that type (MPT_baseaddr with the right member; never `ptr + n`). ITERPROTO also demands that every way to `return 0` in advance() passes a store into the iterator object (the end of the sequence is recorded).",
         "not_decided": "visited values, closed forms, replay equality of the generated numbers",
         "assumptions": [],
         "technique": "vtable resolution from static initialisers + per-slot field read/write sets + interval analysis (query mode, out-parameter summaries) + abstract evaluation at NUL",
         "level_text": "Protocol-shape clauses of the iterator contract for all 8 iterator kinds in the anchor files: past-the-end is reported, reset restores, descriptions without a number are refused before use.",
         "level_note": "",
         "rules": [
+            {"run": rules_iter.run_fieldnull, "floor": 8},
             {"run": rules_iter.run_containerof, "floor": 30, "use_anchor_files": True},
             {"run": rules_iter.run_vtable, "floor": 30, "use_anchor_files": True},
             {"run": rules_iter.run_nulldest, "floor": 6, "use_anchor_files": True},
